@@ -16,6 +16,11 @@ or, for the CHAINED configurations (`cfg ... tree:<T>`), a selection TREE in pla
 
 with one replayed selector per selection node (`s<k>=<branch>`, nodes numbered in pre-order, root = 0),
 
+STRUCTURED targets (`cfg tsb2|tsb3|tsl2|tsbw2 ...`): every target is the whole output of one node (TSB{x,y},
+TSB{x,y,z}, TSL<TS<Int>,2>; tsbw2: a TSB assembled at wiring time with to_tsb - control), fed by one replay source
+per field (`a.x=5`), so that fields start at different times or never; the consumers read the bundle and print
+per field value / validity / modified (`walk_struct` is the per-field version of the rules below).
+
 and prints, per engine cycle, whether the REF output ticked, what the recorders on the targets stored,
 what the recorder through the reference stored, and what every evaluated consumer saw.
 
@@ -49,7 +54,7 @@ import os, re
 from vlib import Case, Stream, BUILD, model_cmd
 
 ID = "C13"
-LEAN_MODULES = ["HgVerif.Props.C13", "HgVerif.Props.C13Chain"]
+LEAN_MODULES = ["HgVerif.Props.C13", "HgVerif.Props.C13Chain", "HgVerif.Props.C13Struct"]
 THEOREMS = [
     "HgVerif.RefLink.ref_subscription_inv", "HgVerif.RefLink.ref_subscription_exact",
     "HgVerif.RefLink.ref_same_no_tick", "HgVerif.RefLink.ref_same_link_noop",
@@ -65,30 +70,48 @@ THEOREMS = [
     "HgVerif.RefLink.chain_out_resolved", "HgVerif.RefLink.chain_equals_resolved",
     "HgVerif.RefLink.chain_retarget_samples", "HgVerif.RefLink.chain_unchanged_silent",
     "HgVerif.RefLink.chain_reads_designated",
+    # structured targets (Props/C13Struct.lean)
+    "HgVerif.RefLink.structured_subscription_inv", "HgVerif.RefLink.structured_subscription_exact",
+    "HgVerif.RefLink.structured_fields_follow_target", "HgVerif.RefLink.unselected_field_ticks_silent",
+    "HgVerif.RefLink.field_tick_evaluates", "HgVerif.RefLink.first_field_tick_reaches_consumer",
+    "HgVerif.RefLink.structured_retarget_samples", "HgVerif.RefLink.chain_struct_inv",
+    "HgVerif.RefLink.chain_struct_equals_resolved",
 ]
 CXX_TARGETS = ["hgv_ref"]
 RULE = ("graphs replay(sel),replay(a),replay(b)[,replay(c)] -> if_then_else|if_cmp|a selection TREE of if_then_else/if_cmp/"
         "nested pass-through nodes whose branches are targets or inner REF outputs (<= 6 selectors, depth <= 4, fixed "
         "two-/three-level topologies and random trees, 1 selector per node) -> [direct|nested pass|nested inner|"
         "nested inner taking the REF] "
-        "-> 1-3 consumers + record, shapes TS<Int>/TSS<Int>/TSD<Int,TS<Int>>, histories of 3-14 cycles built from the "
+        "-> 1-3 consumers + record, shapes TS<Int>/TSS<Int>/TSD<Int,TS<Int>> and STRUCTURED targets (whole node outputs "
+        "TSB{x,y} / TSB{x,y,z} / TSL<TS<Int>,2>, control: TSB{x,y} assembled with to_tsb; one replay source per field, "
+        "fields start at independent times incl. never; flat and chained selection; every 3-cycle history over "
+        "{no selector,a,b} x {nothing, a.x, b.y, a.y+b.x ticks}), histories of 3-14 cycles built from the "
         "named timing scenarios plus random cycles, and every history of length 3 (quick) / 4 (thorough) over "
         "{no selector, sel=a, sel=b} x {a ticks} x {b ticks}, and every history of length 3 over i(i(a,b),c) x "
         "{each selector silent|branch} x {no target, all targets tick}; a case is non-trivial when it contains a retarget to a "
         "valid target that did not tick in that cycle, a tick of an unselected target after the first selection, a "
         "re-selection of the selected target, a retarget caused by an inner selector while the root's selector is silent, "
-        "a path change that ends at the same target, or a kept (stale) reference; distinct by sha1 of the case text")
+        "a path change that ends at the same target, a kept (stale) reference, a retarget to a partly valid bundle, "
+        "the first tick of a field after its target was selected, or a field tick of an unselected bundle; distinct "
+        "by sha1 of the case text")
 TRUSTED = ["contract-level model: REF output = optional target id, one link per consumer; the attachment "
            "bookkeeping of ts_output/alternative.cpp (shared endpoint link, active tries, forwarding sources) and "
            "target_link*.cpp is NOT modelled, only exercised through the real graph",
+           "structured targets: one flat link per consumer field, the re-bind loop over all fields (alternative.cpp "
+           "apply_output_to_from_ref_non_peered) is selectS; bundle validity = some field valid, evaluation = some "
+           "field link scheduled; the harness nodes hgv_make_* (copy a ticking field source into the output field) "
+           "and hgv_target_obs are trusted",
            "chained references: one nodeStep per selection operator and cycle, bottom-up (rank order is C01's); a REF "
            "handed through a nested_ graph is modelled as transparent",
            "the engine part of the model is three phases per cycle (targets, selector, consumers) - rank order and "
            "at-most-once evaluation are C01's, validity gating C03's",
            "the value layer, KeySlotStore and record/replay are exercised, not modelled (replay/record round trip: C20)"]
 ASSUMPTIONS = ["simulation mode, dense 'testing' record/replay backend, start time MIN_ST, one cycle per MIN_TD",
-               "references are peered references to whole outputs (no empty references, no non-peered/structural "
-               "references, no TSB/TSL shapes); selection by if_then_else / if_cmp only (switch_ is C12's), flat or "
+               "references are peered references to whole outputs (no empty references; bundles / fixed lists of "
+               "scalar fields as whole node outputs, and - control shape tsbw2 - one non-peered reference to a TSB "
+               "assembled with to_tsb, there only with a field of every target ticking in the first cycle: before any "
+               "of its fields is valid such a bundle carries no reference and if_then_else keeps what it had, which the "
+               "monitor reads that way but the model does not cover; no nested structures, no per-field references); selection by if_then_else / if_cmp only (switch_ is C12's), flat or "
                "chained (branches may be the REF outputs of other selection operators, also through a nested_ graph)",
                "a selection whose selected branch has not published a reference yet keeps the reference it published "
                "before (if_then_else_impl: `if (!selected.valid()) return;`, same as hgraph's Python if_then_else): the "
@@ -118,11 +141,16 @@ LEVEL_TEXT = ("Kernel-checked for ALL retarget/tick histories of the contract-le
               "refuted (known finding C13-A). Chained references: for every selection tree the event-driven "
               "publication of the operators equals the state-based reading (a node designates what its selected "
               "branch designates), and a cycle of the tree above a dereference IS a cycle of one reference to the "
-              "designated / resolved target, so all of the above holds for chains. The model is tied to the code by running the real "
+              "designated / resolved target, so all of the above holds for chains. Structured targets (bundle / "
+              "fixed list outputs): every field link of every consumer is bound to its field of the CURRENT target "
+              "in every reachable state, so every field read is the current target's (valid or not), ticks of fields "
+              "of other targets evaluate nobody, a tick - also the first ever - of a field of the current target "
+              "evaluates every consumer with that field modified, a retarget samples every valid field; also below "
+              "selection trees. The model is tied to the code by running the real "
               "operators and consumers on generated histories.")
 LEVEL_NOTE = ("PARTIAL by design: the model is the linking contract (linking_strategies.rst 'Sampled rebinds' + the "
               "observable behaviour of the anchored files), not alternative.cpp's attachment bookkeeping; switch_, "
-              "bundles, non-peered and empty references are outside the model and the generator. Trusted: Lean "
+              "nested structures, per-field and empty references are outside the model and the generator. Trusted: Lean "
               "kernel, axioms propext/Classical.choice/Quot.sound, the hand-written model, the harness.")
 
 SHAPES = ["ts", "tss", "tsd"]
@@ -186,13 +214,14 @@ class Tree:
     def depth(self, n=0):
         return 0 if self.nodes[n].kind == "l" else 1 + max(self.depth(k) for k in self.nodes[n].kids)
 
-    def designate(self, conds, cur):
-        """one cycle of the state-based reading: new designation of every node, bottom-up (kids have higher indices)"""
+    def designate(self, conds, cur, leaf_ok=None):
+        """one cycle of the state-based reading: new designation of every node, bottom-up (kids have higher indices);
+        leaf_ok(target) = the branch wired to that target carries a reference (always, unless given)"""
         new = [None] * len(self.nodes)
         for i in range(len(self.nodes) - 1, -1, -1):
             n = self.nodes[i]
             if n.kind == "l":
-                new[i] = n.target
+                new[i] = n.target if leaf_ok is None or leaf_ok(n.target) else None
             elif n.kind == "p":
                 new[i] = new[n.kids[0]]
             else:
@@ -569,6 +598,123 @@ def exhaustive_chain(rng, text, shapes, length, start_idx, tick_sets):
     return cases
 
 
+# ---- structured targets: bundles / fixed lists whose fields start at different times --------------
+STRUCT = {"tsb2": 2, "tsb3": 3, "tsl2": 2, "tsbw2": 2}
+FIELDS = "xyz"
+
+
+def render_struct(rng, idx, shape, ncons, stage, topo, abstract):
+    """abstract cycle: (selector ticks {k: branch} (flat: {0: target index}), [(letter, field index), ...])"""
+    lines = ["case %d" % idx, "cfg %s %d %s%s" % (shape, ncons, stage, "" if topo in ("ite", "") else " " + topo)]
+    flat = not topo.startswith("tree:")
+    for sels, ticks in abstract:
+        toks = ["sel=%s" % "abc"[b] for _, b in sels.items()] if flat else ["s%d=%d" % (k, b) for k, b in sorted(sels.items())]
+        seen = set()
+        for l, f in ticks:
+            if (l, f) not in seen:
+                seen.add((l, f))
+                toks.append("%s.%s=%d" % (l, FIELDS[f], rng.randint(1, 99)))
+        rng.shuffle(toks)
+        lines.append(" ".join(["c"] + toks))
+    lines.append("run")
+    return Case(lines)
+
+
+def gen_struct_case(rng, idx, maxlen):
+    shape = rng.choice(["tsb2", "tsb2", "tsb2", "tsb3", "tsb3", "tsl2", "tsl2", "tsbw2"])
+    nf = STRUCT[shape]
+    ncons = rng.choice([1, 2, 2, 3])
+    stage = rng.choice(["direct", "direct", "direct", "direct", "pass", "inner", "innerref"])
+    r = rng.random()
+    if r < 0.5:
+        topo, tree = "ite", FLAT[False]
+    elif r < 0.62:
+        topo, tree = "cmp", FLAT[True]
+    else:
+        text = rng.choice(["i(i(a,b),c)", "i(a,i(b,c))", "i(i(a,b),i(b,a))", "i(m(a,b,c),a)", "i(p(i(a,b)),c)",
+                           "i(i(a,b),i(c,d))", "m(i(a,b),c,i(c,a))", "i(i(i(a,b),c),a)"]) if rng.random() < 0.8 else random_tree_text(rng)
+        topo, tree = "tree:" + text, tree_of(text)
+    letters = "abcd"[:tree.ntargets]
+    # per target and field: the cycle of its first tick (None = never): the late-starting fields
+    horizon = maxlen + 2
+    first = {(l, f): rng.choice([0, 0, 0, 1, 2, 3, 5, 7, None]) for l in letters for f in range(nf)}
+    if shape == "tsbw2":
+        # a bundle assembled at wiring time is referenced item by item; its reference is not valid before one of its
+        # fields is (if_then_else then keeps what it had - the kept-reference rule); the model does not cover that:
+        # every target has a field that ticks in the first cycle
+        for l in letters:
+            first[(l, rng.randrange(nf))] = 0
+    elif rng.random() < 0.3:               # one target starts completely late / never
+        l = rng.choice(letters)
+        for f in range(nf):
+            first[(l, f)] = rng.choice([None, 4, 6, 8])
+    paths = leaf_paths(tree)
+    conds, abstract = {}, []
+
+    def ticks_at(cyc, rate=0.3):
+        out = []
+        for (l, f), st in first.items():
+            if st is not None and (cyc == st or (cyc > st and rng.random() < rate)):
+                out.append((l, f))
+        return out
+
+    def select(path):
+        sels = {k: b for k, b in path if conds.get(k) != b or rng.random() < 0.15}
+        conds.update(sels)
+        return sels
+
+    cyc = 0
+    if rng.random() < 0.7:                 # scenario: select P, let things tick, retarget to Q (partly valid), old / new field
+        (p, pl), (q, ql) = rng.choice(paths), rng.choice(paths)      # ticks, back
+        pre = rng.randint(0, 2)
+        for _ in range(pre):
+            abstract.append(({}, ticks_at(cyc)))
+            cyc += 1
+        abstract.append((select(p), ticks_at(cyc)))
+        cyc += 1
+        for _ in range(rng.randint(1, 3)):
+            abstract.append(({}, ticks_at(cyc, 0.5)))
+            cyc += 1
+        abstract.append((select(q), ticks_at(cyc) if rng.random() < 0.5 else []))
+        cyc += 1
+        old_f, new_f = rng.randrange(nf), rng.randrange(nf)
+        abstract.append(({}, [(letters[pl], old_f)]))                # a field of the deselected target
+        abstract.append(({}, [(letters[ql], new_f)]))                # a (maybe never ticked) field of the selected one
+        cyc += 2
+        first[(letters[ql], new_f)] = min(first[(letters[ql], new_f)] if first[(letters[ql], new_f)] is not None else cyc, cyc)
+        abstract.append((select(p), []))
+        cyc += 1
+    while len(abstract) < maxlen:
+        sels = {}
+        for k in range(tree.nsel):
+            if rng.random() < min(0.3, 0.6 / tree.nsel):
+                cur = conds.get(k)
+                sels[k] = cur if cur is not None and rng.random() < 0.25 else rng.choice([b for b in range(tree.arity[k]) if b != cur])
+                conds[k] = sels[k]
+        abstract.append((sels, ticks_at(cyc)))
+        cyc += 1
+    if topo in ("ite", "cmp"):
+        abstract = [({0: tree.nodes[tree.nodes[0].kids[b]].target for _, b in sels.items()}, t) for sels, t in abstract]
+    return render_struct(rng, idx, shape, ncons, stage, "" if topo == "ite" else topo, abstract[:maxlen + 4])
+
+
+def exhaustive_struct(rng, shape, length, start_idx, tick_sets):
+    """every history of `length` cycles over {no selector, sel=a, sel=b} x tick_sets, two targets"""
+    alpha = [(({} if s is None else {0: s}), list(t)) for s in (None, 0, 1) for t in tick_sets]
+    cases, idx = [], start_idx
+
+    def rec(prefix):
+        nonlocal idx
+        if len(prefix) == length:
+            cases.append(render_struct(rng, idx, shape, 2, "direct", "", prefix))
+            idx += 1
+            return
+        for sym in alpha:
+            rec(prefix + [sym])
+    rec([])
+    return cases
+
+
 def exhaustive(rng, shapes, length, start_idx):
     alpha = [(s, [l for l, on in zip("ab", (ta, tb)) if on]) for s in (None, "a", "b") for ta in (0, 1) for tb in (0, 1)]
     cases, idx = [], start_idx
@@ -623,6 +769,20 @@ def streams(rng, tier, seed):
            Stream("chained", EXE, model_cmd("C13"), chain),
            Stream("small-scope", EXE, model_cmd("C13"), exh),
            Stream("small-scope-chained", EXE, model_cmd("C13"), exh_chain)]
+    # structured targets: random histories with late-starting fields, and every 3-cycle history of two tsb2 targets
+    n_struct = 900 if quick else 40000
+    struct = [gen_struct_case(rng, 500000 + i, maxlen) for i in range(n_struct)]
+    ax, ay, bx, by = ("a", 0), ("a", 1), ("b", 0), ("b", 1)
+    out += [Stream("structured", EXE, model_cmd("C13"), struct),
+            Stream("small-scope-structured", EXE, model_cmd("C13"),
+                   exhaustive_struct(rng, "tsb2", 3, 600000, [(), (ax,), (by,), (ay, bx)]))]
+    if not quick:
+        singles = [(), (ax,), (ay,), (bx,), (by,), (ax, ay, bx, by)]
+        out += [Stream("small-scope-structured-3", EXE, model_cmd("C13"),
+                       exhaustive_struct(rng, "tsb2", 3, 700000, singles) +
+                       exhaustive_struct(rng, "tsl2", 3, 710000, singles), timeout=3600),
+                Stream("small-scope-structured-4", EXE, model_cmd("C13"),
+                       exhaustive_struct(rng, "tsb2", 4, 800000, [(), (ax,), (by,), (ay, bx)]), timeout=3600)]
     if not quick:
         subsets = [(), ("a",), ("b",), ("c",), ("a", "b", "c")]
         out += [Stream("small-scope-chained-sets", EXE, model_cmd("C13"),
@@ -711,8 +871,180 @@ def delta_text(shape, added, removed, kv):
     return "{" + ",".join(parts) + "}"
 
 
+def parse_fields(txt):
+    """'x:5,y:7' -> {0: 5, 1: 7};  '-' -> {}"""
+    if txt in ("-", ""):
+        return {}
+    return {FIELDS.index(p.split(":")[0]): int(p.split(":")[1]) for p in txt.split(",")}
+
+
+def walk_struct(stream, case, out):
+    """structured targets, per field: the consumer reads field f of the designated target - its value and validity;
+    it is evaluated when a field of the designated target ticks (that field modified) or when the designation
+    changes to a target with a valid field (every valid field modified, sampled value); ticks of fields of other
+    targets never reach it.  The modified flag of a field that is NOT valid is not judged (a tick of the old target
+    in the retarget cycle shows there)."""
+    bad, feats = [], set()
+    shape, ncons, stage, nf, wired, chained = "tsb2", 1, "direct", 2, False, False
+    tree = FLAT[False]
+    out = list(out) + ["<none>"] * (len(case.lines) - len(out))
+    vals, sel, cyc, conds, desig, ever_sel, started = {}, None, 0, {}, [], set(), {}
+
+    def reset():
+        nonlocal vals, sel, cyc, conds, desig, ever_sel, started
+        vals, sel, cyc, conds, desig, ever_sel, started = {}, None, 0, {}, [None] * len(tree.nodes), set(), {}
+
+    reset()
+    for ln, o in zip(case.lines, out):
+        w = ln.split()
+        if not w:
+            reset()
+            continue
+        if o.startswith("<") or o.startswith("err:"):
+            bad.append("[driver] %r answered %r" % (ln, o))
+            continue
+        if w[0] == "case":
+            reset()
+            continue
+        if w[0] == "cfg":
+            if o == "ok":
+                shape, ncons, stage = w[1], int(w[2]), w[3]
+                nf, wired = STRUCT[shape], shape == "tsbw2"
+                cmp = len(w) > 4 and w[4] == "cmp"
+                chained = len(w) > 4 and w[4].startswith("tree:")
+                tree = tree_of(w[4][5:]) if chained else FLAT[cmp]
+                feats.update(["shape=" + shape, "consumers=%d" % ncons, "stage=" + stage,
+                              "selector=" + ("tree" if chained else "if_cmp" if cmp else "if_then_else")])
+                if chained:
+                    feats.add("structured-below-a-tree")
+            reset()
+            continue
+        if w[0] != "c" or o == "bad-op":
+            reset()
+            continue
+        parts = o.split(" | ")
+        head = dict(tok.split("=", 1) for tok in parts[0].split())
+        seen = [parse_seen(p) for p in parts[1:]]
+        toks = dict(t.split("=", 1) for t in w[1:])
+        letters = "abcd"[:tree.ntargets]
+        # ---- the targets themselves
+        ticked = {}                                     # target -> {field: value}
+        for t, l in enumerate(letters):
+            got = parse_fields(head.get("r" + l, "-"))
+            want = {FIELDS.index(k[2]): int(v) for k, v in toks.items() if len(k) == 3 and k[0] == l and k[1] == "."}
+            if got != want:
+                bad.append("[replay] cycle %d: target %s input %r but it ticked %r" % (cyc, l, want, got))
+            if got:
+                ticked[t] = got
+                for f, v in got.items():
+                    if (t, f) not in vals:
+                        started[(t, f)] = cyc
+                    vals[(t, f)] = v
+        # ---- the designation
+        sel_ticks = {0: letters.index(toks["sel"])} if "sel" in toks else {}
+        sel_ticks.update({int(k[1:]): int(v) for k, v in toks.items() if re.fullmatch(r"s\d", k)})
+        conds.update(sel_ticks)
+        old_desig, old = desig, sel
+        # tsbw2: the reference to a bundle assembled at wiring time exists once one of its fields is valid
+        leaf_ok = (lambda t: any((t, f) in vals for f in range(nf))) if wired else None
+        desig = tree.designate(conds, desig, leaf_ok)
+        published = sum(1 for i, n in enumerate(tree.nodes) if n.kind != "l" and desig[i] != old_desig[i])
+        retarget = desig[0] != sel
+        if sel_ticks and not retarget and desig[0] is not None:
+            feats.add("reselect-same")
+        sel = desig[0]
+        if not wired and head.get("r") != ("1" if retarget else "0"):
+            bad.append("[ref-tick] cycle %d: REF output ticked=%s but the selection %s" %
+                       (cyc, head.get("r"), "changed" if retarget else "did not change (same reference must not tick)"))
+        cur_valid = [f for f in range(nf) if sel is not None and (sel, f) in vals]
+        cur_ticked = ticked.get(sel, {}) if sel is not None else {}
+        exp_mod = set(cur_valid) if retarget else set(cur_ticked)
+        must = bool(exp_mod)
+        # ---- features
+        if retarget:
+            if not cur_valid:
+                feats.add("retarget-to-target-without-valid-field")
+            elif len(cur_valid) < nf:
+                feats.add("retarget-to-partly-valid-target")
+                if old is not None:
+                    feats.add("retarget-from-a-target-to-a-partly-valid-one")
+            else:
+                feats.add("retarget-to-fully-valid-target")
+            if sel in ever_sel:
+                feats.add("retarget-back")
+            if old is None:
+                feats.add("first-selection")
+            if old is not None and old in ticked:
+                feats.add("old-target-ticks-in-retarget-cycle")
+            if any(f not in cur_ticked for f in cur_valid):
+                feats.add("retarget-samples-earlier-ticked-field")
+            if chained and 0 not in sel_ticks:
+                feats.add("inner-retarget-root-silent")
+            ever_sel.add(sel)
+        else:
+            for f in cur_ticked:
+                if started.get((sel, f)) == cyc:
+                    feats.add("first-tick-of-a-field-after-selection")
+            if sel is not None and any(t != sel for t in ticked):
+                feats.add("unselected-field-tick" + ("-only" if not cur_ticked else ""))
+                for t, fs in ticked.items():
+                    if t != sel and t in ever_sel and any((sel, f) not in vals for f in fs):
+                        feats.add("deselected-target-ticks-a-field-the-selected-one-never-had")
+        # ---- the consumers
+        for i, sn in enumerate(seen[:ncons]):
+            unchecked = i == 1
+            name = "consumer %d" % i
+            if sn is None:
+                if must:
+                    bad.append("[not-evaluated] cycle %d: %s was not evaluated although %s" %
+                               (cyc, name, "the reference was retargeted to a target with a valid field" if retarget else
+                                "field %s of the selected target ticked" % ",".join(FIELDS[f] for f in sorted(cur_ticked))))
+                continue
+            if sn.get("twice"):
+                bad.append("[twice] cycle %d: %s evaluated twice" % (cyc, name))
+                continue
+            if not must:
+                if retarget and not cur_valid and unchecked:
+                    feats.add("unchecked-evaluated-on-retarget-to-invalid")
+                elif stage in ("inner", "innerref") and cyc == 0 and unchecked:
+                    feats.add("F2-sampled-start")
+                else:
+                    why = ("only fields of unselected targets ticked" if ticked else
+                           "the unchanged reference was re-published" if sel_ticks else "nothing ticked")
+                    if retarget:
+                        why = "the reference was retargeted to a target without a valid field"
+                    bad.append("[spurious] cycle %d: %s was evaluated although %s" % (cyc, name, why))
+            exp_x = ",".join(str(vals[(sel, f)]) if f in cur_valid else "_" for f in range(nf))
+            if sn["x"] != exp_x:
+                bad.append("[value] cycle %d: %s reads fields %s, the selected target holds %s" % (cyc, name, sn["x"], exp_x))
+                continue
+            if sn["v"] != ("1" if cur_valid else "0"):
+                bad.append("[valid] cycle %d: %s reads valid=%s, the selected target has %s valid field" %
+                           (cyc, name, sn["v"], "a" if cur_valid else "no"))
+            for f in cur_valid:
+                if (sn["fm"][f] == "1") != (f in exp_mod):
+                    bad.append("[modified] cycle %d: %s sees field %s modified=%s in a %s cycle" %
+                               (cyc, name, FIELDS[f], sn["fm"][f], "retarget" if retarget else "tick"))
+            if must and sn["m"] != "1":
+                bad.append("[modified] cycle %d: %s sees the bundle modified=0" % (cyc, name))
+        rs = parse_fields(head.get("rs", "-"))
+        exp_rs = {f: vals[(sel, f)] for f in exp_mod}
+        if rs != exp_rs:
+            bad.append("[record] cycle %d: record through the reference stored %s, expected %s" %
+                       (cyc, head.get("rs"), ",".join("%s:%d" % (FIELDS[f], v) for f, v in sorted(exp_rs.items())) or "-"))
+        if chained and not wired and head.get("n") != str(published):
+            bad.append("[publish-count] cycle %d: %s nodes of the tree published a reference, %d changed what they "
+                       "designate" % (cyc, head.get("n"), published))
+        cyc += 1
+    return bad, feats
+
+
 def walk(stream, case, out):
     """-> (violations, features)"""
+    for ln in case.lines[:3]:
+        w = ln.split()
+        if len(w) > 1 and w[0] == "cfg" and w[1] in STRUCT:
+            return walk_struct(stream, case, out)
     strict = stream == "strict-delta"
     bad, feats = [], set()
     shape, ncons, stage, cmp = "ts", 1, "direct", False
@@ -941,4 +1273,6 @@ def nontrivial(stream, case, out):
     f = walk(stream, case, out)[1]
     return bool(f & {"retarget-to-earlier-ticked", "unselected-tick", "unselected-tick-only", "reselect-same",
                      "retarget-back", "old-target-ticks-in-retarget-cycle", "inner-retarget-root-silent",
-                     "path-changes-target-unchanged", "stale-reference-kept"})
+                     "path-changes-target-unchanged", "stale-reference-kept",
+                     "retarget-to-partly-valid-target", "first-tick-of-a-field-after-selection",
+                     "unselected-field-tick", "unselected-field-tick-only", "retarget-samples-earlier-ticked-field"})
